@@ -109,6 +109,7 @@ let functions : (string * (val0 -> val0)) list = [
 
 (* monitors: (property, suite) -> case -> implementation output -> list of violations *)
 let monitors : ((string * string) * (val0 -> val0 -> val0)) list = [
+  (("C01", "hub"), mon_C01);
   (("C04", "hub"), mon_C04);
   (("C10", "hub"), mon_C10);
   (("C12", "hub"), mon_C12);
